@@ -391,6 +391,9 @@ pub fn run_real(_args: &[String]) {
     let mut server = crate::conn::Server::start(&addr, 2, 8);
     let mut nfail = 0usize;
     for (i, case) in cases.iter().enumerate() {
+        if nfail > 40 {
+            break;
+        }
         let res: Result<(), String> = (|| {
             let conn = Connection::with_address(&addr).map_err(|e| format!("connect: {:?}", e.kind()))?;
             let mut client = crate::svc::gen::VarlinkClient::new(conn.clone());
